@@ -1,5 +1,6 @@
 import PestModel.Model.LineColSpec
 import PestModel.Lemmas.LineCol
+import PestModel.Lemmas.LineColGet
 /-!
 # C10 — line/column arithmetic and error rendering are correct for all text
 
@@ -98,6 +99,17 @@ theorem render_shows_pos (s pre post msg : Str) (off : Nat) (h : splitAt? s off 
   · rw [hk, Nat.add_sub_cancel, List.take_left' (ulPad_length _ _)]
     exact ulPad_chars _ _
   · rw [← hmsg]; exact format_pos e _ _ hl hu
+
+/-- **`Span::get`**: on a span `[a, b)` of `s`, the sub-range `x..y` (offsets in the span's own text) gives a span exactly when
+`[a + x, a + y)` is itself a span of `s` that lies inside `[a, b)`, and that is the span returned — never one that leaves its
+parent. -/
+theorem spanGet_iff (s : Str) (a b x y : Nat) (h : spanNew s a b = true) (p : Nat × Nat) :
+    spanGet s a b x y = some p ↔ p = (a + x, a + y) ∧ a + y ≤ b ∧ spanNew s (a + x) (a + y) = true :=
+  LineCol.spanGet_iff s a b x y h p
+
+/-- not vacuous, both ways: a range that leaves the span but stays inside the input is refused; an inner one is returned. -/
+example : spanNew "let x\nlet y".toList 0 5 = true ∧ spanGet "let x\nlet y".toList 0 5 4 9 = none ∧
+    spanGet "let x\nlet y".toList 4 11 2 5 = some (6, 9) := by decide
 
 /-- Non-vacuity: a concrete multi-line, multi-byte input where the interesting branches are hit. -/
 example : lineColSpec "a\r\né嗨\nb".toList 8 = some (2, 3) := by
